@@ -40,7 +40,8 @@ ASSUMPTIONS = [
     "store-delivered scenarios are compared up to frequency ties (the reference reads files); same-reader scenarios at full L2",
 ]
 
-NS_POOL = [gen.EX, gen.EX_DEEP, gen.EX_DEEPER, gen.OTHER]
+URN_NS = "urn:ex:vocab:"
+NS_POOL = [gen.EX, gen.EX_DEEP, gen.EX_DEEPER, gen.OTHER, URN_NS]
 
 
 def generate(rng, tier, index):
@@ -48,7 +49,7 @@ def generate(rng, tier, index):
     n_nodes = rng.choice([3, 4, 6, 8, 10]) if tier == "quick" else rng.choice([3, 4, 6, 8, 10, 16, 24])
     triples = gen.gen_graph(rng, n_nodes=n_nodes, n_classes=rng.randint(1, 3), n_props=rng.randint(2, 6),
                             bnodes=rng.random() < 0.25, prop_namespaces=tuple(rng.sample(NS_POOL, rng.randint(1, 4))),
-                            density=rng.choice([0.5, 0.8]), kinds=("node", "str", "int", "lang", "date", "iri", "iri2"))
+                            density=rng.choice([0.5, 0.8]), kinds=("node", "str", "int", "lang", "date", "iri", "iri2", "cdt"))
     tp = gen.CUSTOM_TYPE if rng.random() < 0.12 else gen.RDF_TYPE
     triples = gen.retype(gen.ensure_class(triples), tp)
     classes = gen.classes_of(triples, tp)
@@ -66,14 +67,16 @@ def generate(rng, tier, index):
             scen["target"] = {"target_classes": rng.sample(classes, rng.randint(1, len(classes)))}
         else:
             scen["target"] = {"all_classes_mode": True}
-        scen["channel"] = rng.choice(["file", "file", "raw", "store", "store", "tsv_file"])
+        scen["channel"] = rng.choice(["file", "file", "raw", "store", "store", "tsv_file", "files", "files", "zip"])
+        scen["parts"] = rng.randint(2, 4)
         p2 = list(p1)
         if scen["channel"] == "store" and rng.random() < 0.8:
             p2 = list(range(n))
             rng.shuffle(p2)
         scen["orders"] = [p1, p2]
     else:
-        pool = NS_POOL + [gen.RDF_NS]
+        # also: the rdf: namespace, and namespaces written without their trailing '/' (they then match nothing directly)
+        pool = NS_POOL + [gen.RDF_NS, gen.EX[:-1], gen.EX_DEEP[:-1]]
         scen["ignore"] = rng.sample(pool, rng.randint(1, 3))
         scen["target"] = gen.gen_target(rng, triples, allow_shape_map=False, type_prop=tp)
         scen["channel"] = rng.choice(["file", "raw"])
@@ -135,12 +138,27 @@ def execute(scen, scratch):
         if scen["half"] == "cap":
             k = scen["cap"]
             ch = scen["channel"]
+            pos = None
             if ch == "file":
                 sut_kw = {"graph_file_input": sim.write_file("sut.nt", gen.to_nt(s1))}
             elif ch == "tsv_file":
                 sut_kw = {"graph_file_input": sim.write_file("sut.tsv", gen.to_tsv(s1)), "input_format": "tsv_spo"}
             elif ch == "raw":
                 sut_kw = {"raw_graph": gen.to_nt(s1)}
+            elif ch in ("files", "zip"):
+                # the delivered pass-1 order is the concatenation of the files / members in the order given
+                n_parts = max(1, min(scen.get("parts", 2), len(s1)))
+                size = -(-len(s1) // n_parts)
+                parts = [s1[i:i + size] for i in range(0, len(s1), size)]
+                if ch == "files":
+                    sut_kw = {"graph_list_of_files_input": [sim.write_file("sut_%d.nt" % i, gen.to_nt(p)) for i, p in enumerate(parts)]}
+                else:
+                    import zipfile
+                    zp = sim.path("sut.zip")
+                    with zipfile.ZipFile(zp, "w") as z:
+                        for i, p in enumerate(parts):
+                            z.writestr("m%d.nt" % i, gen.to_nt(p))
+                    sut_kw = {"graph_file_input": zp, "compression_mode": "zip"}
             else:
                 base = sorted(range(len(triples)), key=lambda i: tuple(x.n3() for x in (gen.to_rdflib_term(triples[i][0]),
                                                                                       gen.to_rdflib_term(triples[i][1]),
